@@ -265,6 +265,17 @@ def drvStep (d : Drv) (line : String) : Drv × String × List Event :=
       | "rule", [a, r] => (Rule.ofName r).map (fun r => .rule { anchor := unx a, rule := r })
       | "pages", [_, ps] => some (.pages { prefixes := unxList ps })
       | "net", [o, a] => some (.net { out := is1 o, auto := is1 a })
+      | "crawled", [_, ps] => some (.query (.crawled { cur := { prefixes := unxList ps } }))
+      | "mostlinked", [_, ps, k, dp] =>
+        some (.query (.mostLinked { cur := { prefixes := unxList ps, depth := optNat dp }, k := k.toNat?.getD 10 }))
+      | "children", [w, ps] =>
+        some (.query (.children { cur := { prefixes := unxList ps, skip := true }, weid := w.toNat?.getD 0 }))
+      | "pagelinks", [w, ps, i, n, o] =>
+        some (.query (.pagelinks { cur := { prefixes := unxList ps }, weid := w.toNat?.getD 0,
+                                   incIn := is1 i, incInt := is1 n, incOut := is1 o }))
+      | "weout", [_, ps] => some (.query (.cited { cur := { prefixes := unxList ps }, out := true }))
+      | "wein", [_, ps] => some (.query (.cited { cur := { prefixes := unxList ps }, out := false }))
+      | "netslow", [o, a] => some (.query (.netSlow { out := is1 o, auto := is1 a }))
       | _, _ => none
     (match mk with
      | some c => ({ d with cos := dictSet d.cos (id.toNat?.getD 0) c }, "ok", [])
